@@ -228,6 +228,13 @@ impl Reader {
                     );
                     return Err(format::Error::Malformed);
                 }
+                if item_header.size as usize % mem::size_of::<i32>() != 0 {
+                    error!(
+                        "item size not divisible by 4, item={} size={}",
+                        i, item_header.size
+                    );
+                    return Err(format::Error::Malformed);
+                }
                 offset += item_header.size as usize;
                 if offset > self.header.hr.size_items as usize {
                     error!(
